@@ -2,6 +2,7 @@ package rules
 
 import (
 	"go/ast"
+	"go/token"
 	"go/types"
 	"strings"
 
@@ -29,6 +30,10 @@ func init() {
 			"that every subscriptionUpdater callback enters the resolver only under updater.mu after the done/ctx gate; and that handleTriggerUpdate joins its workers. " +
 			"It does not decide ordering or exactness of the delivered messages (value/ history level).",
 		Mutants: []Mutant{
+			{Name: "synchronous API returns right after unsubscribing (seeded change C12-11)", File: resolveGo, Rule: "C12-R5", Key: "ResolveGraphQLSubscription/exit-after-completed",
+				Old: "\t\t_ = r.UnsubscribeSubscription(id)\n\t\tselect {\n\t\tcase <-completed:\n\t\t\t// Wait for the subscription to be completed to avoid race conditions\n\t\t\t// with go sdk request shutdown.\n\t\tcase <-r.ctx.Done():\n\t\t\t// Resolver shutdown\n\t\t\treturn r.ctx.Err()\n\t\t}\n", New: "\t\treturn r.UnsubscribeSubscription(id)\n"},
+			{Name: "one failing filter drops the event for all subscribers (seeded change C12-13)", File: resolveGo, Rule: "C12-R6", Key: "handleTriggerUpdate/exit-after-delivery",
+				Old: "\tfor _, fe := range filterErrors {\n\t\tfe.sub.writeError(r.errorFormatter, fe.ctx, fe.err, fe.response)\n\t}\n\n\tvar wg sync.WaitGroup", New: "\tfor _, fe := range filterErrors {\n\t\tfe.sub.writeError(r.errorFormatter, fe.ctx, fe.err, fe.response)\n\t}\n\tif len(filterErrors) != 0 {\n\t\treturn\n\t}\n\n\tvar wg sync.WaitGroup"},
 			{Name: "heartbeat written without re-checking removed", File: resolveGo, Rule: "C12-R1", Key: "sendHeartbeat",
 				Old: "\tif s.removed.Load() {\n\t\treturn nil\n\t}\n\treturn s.writer.Heartbeat()", New: "\treturn s.writer.Heartbeat()"},
 			{Name: "removed tested before writeMu is taken in executeSubscriptionUpdate", File: resolveGo, Rule: "C12-R1", Key: "executeSubscriptionUpdate",
@@ -86,6 +91,8 @@ func subsLockAnalysis(r *fw.Run) *fw.LockAnalysis {
 }
 
 func runC12(r *fw.Run) {
+	defer c12SyncAPIWaitsForCompletion(r)
+	defer c12FilterErrorsDoNotSilenceOthers(r)
 	p := r.Prog
 	if p.Named("resolve", "subscriptionState") == nil {
 		r.Error("type resolve.subscriptionState not found")
@@ -420,4 +427,152 @@ func derivesFromToClose(fi *fw.FuncInfo, e ast.Expr) (bool, string) {
 		}
 	}
 	return false, "the list does not come from a toClose field of a removal result: subscriptions that were not won by removed.CompareAndSwap(false,true) would be closed (double close / close while still registered)"
+}
+
+// c12SyncAPIWaitsForCompletion (R5, added after a seeded change returned right after UnsubscribeSubscription): once the
+// subscription is registered, the synchronous API ResolveGraphQLSubscription returns only after it received from the
+// subscription's completed channel (closed under writeMu after the last write) or from the resolver's own context. The
+// caller (an HTTP handler) releases the writer when the function returns; returning earlier lets an in-flight write
+// touch a released writer.
+func c12SyncAPIWaitsForCompletion(r *fw.Run) {
+	p := r.Prog
+	r.Rule("C12-R5", "after the subscription is registered, every exit of the synchronous ResolveGraphQLSubscription follows a receive from the completed channel handed to addSubscription, or from the resolver's context (shutdown)")
+	fi := p.Func("resolve", "Resolver.ResolveGraphQLSubscription")
+	if fi == nil {
+		r.Error("C12-R5: Resolver.ResolveGraphQLSubscription not found")
+		return
+	}
+	info := fi.Info()
+	// the completed channel: the value of the `completed` field of the addSubscription literal
+	var completed types.Object
+	fw.WalkAll(fi.Decl.Body, func(nd ast.Node) bool {
+		if cl, ok := nd.(*ast.CompositeLit); ok && fw.TypeIs(info.TypeOf(cl), "resolve", "addSubscription") {
+			for _, el := range cl.Elts {
+				if kv, ok := el.(*ast.KeyValueExpr); ok {
+					if k, ok := kv.Key.(*ast.Ident); ok && k.Name == "completed" {
+						completed = fw.RootObj(info, kv.Value)
+					}
+				}
+			}
+		}
+		return true
+	})
+	if completed == nil {
+		r.Error("C12-R5: no completed channel is handed to addSubscription")
+		return
+	}
+	n := 0
+	in := fw.NewInterp(fi)
+	in.H = fw.Hooks{
+		Node: func(nd ast.Node, st *fw.State) {
+			if c, ok := nd.(*ast.CallExpr); ok && fw.CallIs(info, c, "resolve", "Resolver.addSubscription") {
+				st.Set("registered")
+			}
+			// a plain receive statement <-completed
+			if u, ok := nd.(*ast.UnaryExpr); ok && u.Op == token.ARROW {
+				if fw.RootObj(info, u.X) == completed {
+					st.Set("waited")
+				}
+			}
+		},
+		Cond: func(e ast.Expr, branch bool, st *fw.State) {
+			// the error edge of the registration itself
+			if x, eq, ok := fw.NilCheck(info, e); ok && eq != branch && st.Must("registered") {
+				if t := info.TypeOf(x); t != nil && t.String() == "error" {
+					st.Set("registration-failed")
+				}
+			}
+		},
+		Comm: func(cc *ast.CommClause, st *fw.State) {
+			var x ast.Expr
+			switch c := cc.Comm.(type) {
+			case *ast.ExprStmt:
+				if u, ok := ast.Unparen(c.X).(*ast.UnaryExpr); ok && u.Op == token.ARROW {
+					x = u.X
+				}
+			case *ast.AssignStmt:
+				if len(c.Rhs) == 1 {
+					if u, ok := ast.Unparen(c.Rhs[0]).(*ast.UnaryExpr); ok && u.Op == token.ARROW {
+						x = u.X
+					}
+				}
+			}
+			if x == nil {
+				return
+			}
+			if fw.RootObj(info, x) == completed {
+				st.Set("waited")
+			}
+			// <-r.ctx.Done(): the resolver's own context
+			if c, ok := ast.Unparen(x).(*ast.CallExpr); ok {
+				if sel, ok := ast.Unparen(c.Fun).(*ast.SelectorExpr); ok && sel.Sel.Name == "Done" && fw.IsFieldSel(info, sel.X, "resolve", "Resolver", "ctx") {
+					st.Set("waited")
+				}
+			}
+		},
+		Exit: func(ret *ast.ReturnStmt, lit *ast.FuncLit, st *fw.State) {
+			if lit != nil || !st.Must("registered") || st.Must("registration-failed") {
+				return
+			}
+			n++
+			pos := fi.Decl.End()
+			if ret != nil {
+				pos = ret.Pos()
+			}
+			r.Check(st.Must("waited"), "C12-R5", fi.Name()+"/exit-after-completed#"+itoa(n), p.Pos(pos), "exit of ResolveGraphQLSubscription after the completed channel (or the resolver context) was received from",
+				"the synchronous API returns while the subscription may still be writing: completed is closed under writeMu after the last write, so only a receive from it orders the return after every write — without it a heartbeat or update that is in flight touches the writer after the HTTP handler has released it")
+		},
+	}
+	in.Run(nil)
+	r.Expect("C12-R5", "exits of ResolveGraphQLSubscription after registration", n, 2)
+}
+
+// c12FilterErrorsDoNotSilenceOthers (R6, added after a seeded change returned early on any filter error): in
+// handleTriggerUpdate the event is delivered to the subscribers that passed the filter on every path — a filter error of
+// one subscriber is reported to that subscriber and never ends the delivery for the others (delivered == filter(events)
+// per subscriber).
+func c12FilterErrorsDoNotSilenceOthers(r *fw.Run) {
+	p := r.Prog
+	r.Rule("C12-R6", "in handleTriggerUpdate every path from filterSubscriptions reaches the delivery loop over the subscribers that passed the filter (filter errors of some subscribers never end the delivery for the others)")
+	fi := p.Func("resolve", "Resolver.handleTriggerUpdate")
+	if fi == nil {
+		r.Error("C12-R6: Resolver.handleTriggerUpdate not found")
+		return
+	}
+	info := fi.Info()
+	var subs types.Object
+	n := 0
+	in := fw.NewInterp(fi)
+	in.H = fw.Hooks{
+		Lit: func(l *ast.FuncLit, ctx fw.LitCtx, st *fw.State) fw.LitMode { return fw.LitSkip },
+		Node: func(nd ast.Node, st *fw.State) {
+			switch x := nd.(type) {
+			case *ast.AssignStmt:
+				if len(x.Rhs) == 1 {
+					if c, ok := ast.Unparen(x.Rhs[0]).(*ast.CallExpr); ok && fw.CallIs(info, c, "resolve", "trigger.filterSubscriptions") && len(x.Lhs) >= 1 {
+						subs = fw.RootObj(info, x.Lhs[0])
+						st.Set("filtered")
+					}
+				}
+			case *fw.RangeEval:
+				if subs != nil && fw.RootObj(info, x.Stmt.X) == subs {
+					st.Set("delivery-reached")
+				}
+			}
+		},
+		Exit: func(ret *ast.ReturnStmt, lit *ast.FuncLit, st *fw.State) {
+			if lit != nil || !st.Must("filtered") {
+				return
+			}
+			n++
+			pos := fi.Decl.End()
+			if ret != nil {
+				pos = ret.Pos()
+			}
+			r.Check(st.Must("delivery-reached"), "C12-R6", fi.Name()+"/exit-after-delivery#"+itoa(n), p.Pos(pos), "exit of handleTriggerUpdate after the delivery loop",
+				"an exit between filtering and delivery: when the filter of ONE subscriber fails (e.g. its variables cannot be evaluated) the event is dropped for every healthy subscriber that shares the trigger")
+		},
+	}
+	in.Run(nil)
+	r.Expect("C12-R6", "exits of handleTriggerUpdate after filtering", n, 1)
 }
